@@ -33,3 +33,28 @@ Definition mism_site := Eval vm_compute in
     | _, _ => false
     end) cases_site.
 Print mism_site.
+
+(* translation validation: the Gallina regenerated from daemon/messages.go
+   (Gen/MsgTruncate.v) on the same item sizes vs the number of items the
+   implementation kept. Non-direct cases go through the constructor, which caps
+   the item list first (firstn item_limit). 4 = EncodeSize() of an empty message
+   (the observed encoded length 12 + sum of the kept sizes is checked by pf_msg). *)
+Definition gen_msg (kc : Z) (direct : bool) (xs : list Z) (max : Z) : res Z :=
+  let k := kind_of_code kc in
+  let ys := if direct then xs else firstn (item_limit k) xs in
+  match k with
+  | GivePeers => truncateGivePeersMessage 4 ys max
+  | GiveBlocks => truncateGiveBlocksMessage 4 ys max
+  | GiveTxns => truncateGiveTxnsMessage 4 ys max
+  | AnnounceTxns => truncateAnnounceTxnsHashes 4 (Z.of_nat (List.length ys)) max
+  | GetTxns => truncateGetTxnsHashes 4 (Z.of_nat (List.length ys)) max
+  end.
+Definition mism_gen := Eval vm_compute in
+  failing (fun c : Z * bool * list (Z * Z) * Z * res (Z * bool * Z * Z) =>
+    let '(kc, direct, rl, max, obs) := c in
+    match gen_msg kc direct (expand rl) max, obs with
+    | Panic, Panic => true
+    | Val n, Val (kept, pre, enclen, verdict) => n =? kept
+    | _, _ => false
+    end) cases_msg.
+Print mism_gen.
